@@ -178,6 +178,7 @@ package handler
 //@ ensures[C04] WFMSM4(messageBitStream) ==> typeis(message.Readable, "*github.com/goblimey/go-ntrip/rtcm/type_msm4/message.Message") && unbox(message.Readable) != 0
 //@ ensures message.RawData == old(message.RawData) && message.MessageType == old(message.MessageType) && message.LogLevel == old(message.LogLevel)
 //@ ensures message.Readable == old(message.Readable) || (typeis(message.Readable, "*github.com/goblimey/go-ntrip/rtcm/type_msm4/message.Message") && unbox(message.Readable) != 0)
+//@ ensures[C07] message.Readable == old(message.Readable) || ReadableWF(message)
 
 //@ func analyseMSM7
 //@ opaque Row4OK, Row7OK, Sig4OK, Sig7OK, RowOK
@@ -186,6 +187,7 @@ package handler
 //@ ensures[C04] WFMSM7(messageBitStream) ==> typeis(message.Readable, "*github.com/goblimey/go-ntrip/rtcm/type_msm7/message.Message") && unbox(message.Readable) != 0
 //@ ensures message.RawData == old(message.RawData) && message.MessageType == old(message.MessageType) && message.LogLevel == old(message.LogLevel)
 //@ ensures message.Readable == old(message.Readable) || (typeis(message.Readable, "*github.com/goblimey/go-ntrip/rtcm/type_msm7/message.Message") && unbox(message.Readable) != 0)
+//@ ensures[C07] message.Readable == old(message.Readable) || ReadableWF(message)
 
 //@ func Analyse
 //@ requires[C07] message != nil
